@@ -187,6 +187,44 @@ func runC09(c c09Case) error {
 			return fmt.Errorf("Build invoked setter %d (%s) %d times, want %d (first failure at %d)", i, c.List[i].Kind, s.calls, want, failAt)
 		}
 	}
+	// the package-level Build wrapper: same verdict, and no message on failure
+	{
+		fresh := make([]stun.Setter, len(c.List))
+		fspies := make([]*spy, len(c.List))
+		for i, o := range c.List {
+			s, _, _, _ := o.setter()
+			fspies[i] = &spy{inner: s}
+			fresh[i] = fspies[i]
+		}
+		var pm *stun.Message
+		var perr2 error
+		if perr := pbt.Safely(func() { pm, perr2 = stun.Build(fresh...) }); perr != nil {
+			return perr
+		}
+		if got := classify(perr2); got != wantClass {
+			return fmt.Errorf("stun.Build returned %q, want %s", got, wantClass)
+		}
+		if (perr2 != nil) != (pm == nil) {
+			return fmt.Errorf("stun.Build returned message=%v together with error %v", pm != nil, perr2)
+		}
+		for i, s := range fspies {
+			if want := b2i(failAt < 0 || i <= failAt); s.calls != want {
+				return fmt.Errorf("stun.Build invoked setter %d %d times, want %d", i, s.calls, want)
+			}
+		}
+		var mustPanicked bool
+		func() {
+			defer func() { mustPanicked = recover() != nil }()
+			again := make([]stun.Setter, len(c.List))
+			for i, o := range c.List {
+				again[i], _, _, _ = o.setter()
+			}
+			_ = stun.MustBuild(again...)
+		}()
+		if mustPanicked != (failAt >= 0) {
+			return fmt.Errorf("MustBuild panicked=%v although the first failing setter index is %d", mustPanicked, failAt)
+		}
+	}
 	if failAt >= 0 {
 		// the message equals Build(prefix)
 		b2, err := startBuilder(bop{Kind: "start-build", Sub: c.Before})
@@ -207,6 +245,14 @@ func runC09(c c09Case) error {
 	}
 
 	return nil
+}
+
+func b2i(b bool) int {
+	if b {
+		return 1
+	}
+
+	return 0
 }
 
 func containsType(s msgSnap, t uint16) bool {
